@@ -10,6 +10,7 @@ import (
 	"go/ast"
 	"go/token"
 	"go/types"
+	"strings"
 
 	"golang.org/x/tools/go/analysis"
 )
@@ -42,6 +43,13 @@ func CheckConstructor(
 			switch node := n.(type) {
 			case *ast.FuncDecl:
 				currentFunction, funcEnd = node.Name.Name, node.End()
+				if node.Recv != nil && len(node.Recv.List) > 0 {
+					// A method is written as "Receiver.Name": a method of another type that merely
+					// shares a constructor's name is not that constructor
+					if recv := annotations.ExtractReceiverType(node.Recv.List[0].Type); recv != "" {
+						currentFunction = recv + "." + node.Name.Name
+					}
+				}
 				return true
 
 			case *ast.CompositeLit:
@@ -70,6 +78,19 @@ func CheckConstructor(
 	}
 
 	return violations
+}
+
+// constructorName returns the name under which the enclosing function may be listed as a
+// constructor of typeName: a function's own name, a method's name only for methods of that type.
+func constructorName(currentFunction string, typeName string) string {
+	recv, name, isMethod := strings.Cut(currentFunction, ".")
+	if !isMethod {
+		return currentFunction
+	}
+	if recv == typeName {
+		return name
+	}
+	return ""
 }
 
 func checkCompositeLiteral(
@@ -109,7 +130,7 @@ func checkCompositeLiteral(
 	}
 
 	// Check if we're in one of the allowed constructors
-	if pass.Pkg.Path() == pkgPath && constructors.Match(pkgPath, currentFunction, typeName) {
+	if pass.Pkg.Path() == pkgPath && constructors.Match(pkgPath, constructorName(currentFunction, typeName), typeName) {
 		return nil
 	}
 
@@ -177,7 +198,7 @@ func checkNewCall(
 	}
 
 	// Check if we're in one of the allowed constructors
-	if pass.Pkg.Path() == pkgPath && constructors.Match(pkgPath, currentFunction, typeName) {
+	if pass.Pkg.Path() == pkgPath && constructors.Match(pkgPath, constructorName(currentFunction, typeName), typeName) {
 		return nil
 	}
 
@@ -249,7 +270,7 @@ func checkVarDeclaration(
 			}
 
 			// Check if we're in one of the allowed constructors
-			if pass.Pkg.Path() == pkgPath && constructors.Match(pkgPath, currentFunction, typeName) {
+			if pass.Pkg.Path() == pkgPath && constructors.Match(pkgPath, constructorName(currentFunction, typeName), typeName) {
 				continue
 			}
 
